@@ -176,7 +176,7 @@ func cmdReplay(args []string) int {
 		return 2
 	}
 	abs, _ := filepath.Abs(args[0])
-	engineOnly := rf.NoNative || rf.Clock == "sym" || strings.HasSuffix(rf.Label, "/alloc-proportional-to-input") || strings.HasSuffix(rf.Label, "/unbounded-work")
+	engineOnly := rf.NoNative || rf.Clock == "sym" || strings.HasSuffix(rf.Label, "/alloc-proportional-to-input") || strings.HasSuffix(rf.Label, "/unbounded-work") || strings.HasSuffix(rf.Label, "/shared-table-written")
 	if !engineOnly {
 		rp := newNativeReplayer(rf.Dir, ov, workDir)
 		defer rp.close()
